@@ -15,6 +15,8 @@ interpreter `run` (memoised, every instruction once) computes exactly it.
 import ForML.Lemmas.C02Dask
 import ForML.Lemmas.C02PyExpr
 import ForML.Lemmas.C02PyFull
+import ForML.Lemmas.C02Builder
+import ForML.Lemmas.C02Token
 import ForML.Model.PyFuncLegacy
 
 namespace ForML.Flow
@@ -177,6 +179,179 @@ example : (expression none exHeadFanout).toOption.isSome = true := by rfl
 example : (expression none exShortFirst).toOption.isSome = true := by rfl
 example : (expression exAssets exServing).toOption.isSome = true := by rfl
 example : exHeadFanout.heads = [.uid 0] ∧ exShortFirst.heads = [.uid 0] ∧ exServing.heads = [.uid 0] := by decide
+
+/-! ### the two ways a state preset reaches the actor -/
+
+/-- **Both preset paths configure the actor identically - for every preset value, falsy or not.** `Functor.execute`
+(dask under every scheduler, the direct evaluation) runs `Preset.__call__` on a fresh actor with the *values* of all
+arguments (`execFunctor`); the single-function runner runs `Preset.reduce` once, when the expression is built, on the
+loaded values `evs` (the remaining arguments still being instructions) and keeps the prepared actor `Task(actor,
+action)` (`PyFunc.reduce`, `Raw.task`). Whenever the build-time reduction goes through, the prepared actor applied to
+the values of the remaining arguments (`D` = any valuation of the instructions, `extra` = the external input of the
+head) is what the inline path computes from all the values: the same state was set or - `None`, `b''`, an empty
+sequence, `0`: any falsy value - skipped on both paths. -/
+theorem C02_preset_paths (D : Key → Val) (a : Actor) (act : Action) (ps : List Preset) (evs : List Evaluated)
+    (st : Val) (rem : List Evaluated) (h : PyFunc.reduce ps .none evs = .ok (st, rem)) (extra : List Val) :
+    execFunctor a act ps (evs.map (rho D) ++ extra) = (Raw.task a st act).call (rem.map (rho D) ++ extra) := by
+  simp only [execFunctor]
+  rw [reduce_spec D h extra]
+  exact task_call a st act _
+
+/-- one state preset fed by a loader: the value is set iff it is truthy, on both paths -/
+theorem C02_preset_paths_one (a : Actor) (v : Val) (args : List Val) :
+    PyFunc.reduce [.setState] .none [.value v] = .ok (if v.truthy then v else .none, []) ∧
+    execFunctor a .apply [.setState] (v :: args) = .apply a (if v.truthy then v else .none) args := by
+  constructor
+  · simp [PyFunc.reduce]
+  · simp [execFunctor, reducePresets]
+
+/-- non-vacuity: a falsy payload that is not `None` exists in the model, is skipped by both paths, and is told apart
+from `None` wherever it travels as data -/
+example : (Val.stored falsyBase).truthy = false ∧ (Val.stored 0).truthy = true ∧
+    execFunctor 7 .apply [.setState] [.stored falsyBase, .stored falsyBase] = .apply 7 .none [.stored falsyBase] ∧
+    execFunctor 7 .apply [.setState] [.stored 0, .stored 0] = .apply 7 (.stored 0) [.stored 0] :=
+  ⟨by decide, by decide, by rfl, by rfl⟩
+
+/-! ### builders, hyper-parameters and the process boundary -/
+
+/-- **Pickling contract of a builder**: `pickle.loads(pickle.dumps(spec))` - `Spec.__getnewargs_ex__` followed by
+`Spec.__new__` - is the same builder, for every builder `Spec.__new__` has accepted: same class, same positional
+arguments, same keyword arguments whatever their values (an explicit `None`, a falsy value, the default itself). -/
+theorem C02_spec_pickle (s : Spec) (h : s.valid = true) : s.roundtrip = some s :=
+  Spec.roundtrip_valid h
+
+/-- builders come into being through `Spec.__new__` only, so every one of them is valid -/
+theorem C02_spec_new_valid (c : ActorClass) (a : List Hyper) (k : Kwargs) (s : Spec) (h : Spec.new c a k = some s) :
+    s.valid = true ∧ s.roundtrip = some s :=
+  ⟨(Spec.new_spec h).2, Spec.roundtrip_valid (Spec.new_spec h).2⟩
+
+/-- **What a builder configures**: if the actor can be instantiated, the instance lists every constructor parameter
+once, in signature order; every keyword argument of the builder is bound as given (also `name=None` over a non-`None`
+default); positional arguments are bound to the leading parameters; whatever was not passed holds the constructor
+default. -/
+theorem C02_builder_call (s : Spec) (i : Instance) (h : s.call = some i) :
+    i.sym = s.cls.sym ∧ i.params.map (·.1) = s.cls.params.map (·.name) ∧
+    (∀ n v, (n, v) ∈ s.kwargs → (n, v) ∈ i.params) ∧
+    (∀ e ∈ List.zip ((s.cls.params.take s.args.length).map (·.name)) s.args, e ∈ i.params) ∧
+    (∀ p ∈ s.cls.params.drop s.args.length, s.kwargs.get p.name = none →
+      ∃ d, p.default = some d ∧ (p.name, d) ∈ i.params) := by
+  unfold Spec.call at h
+  split at h
+  · cases h
+  · rename_i ps hps
+    cases h
+    have hps' := hps
+    unfold bindCall at hps'
+    split at hps'
+    · cases hps'
+    · rename_i b rest hb
+      obtain ⟨h1, h2, _⟩ := bindPos_spec hb
+      refine ⟨rfl, bindCall_names hps, fun n v hm => bindCall_kw hps hm, ?_, ?_⟩
+      · intro e he
+        split at hps'
+        · split at hps'
+          · cases hps'
+          · cases hps'
+            exact List.mem_append_left _ (h1 ▸ he)
+        · cases hps'
+      · intro p hp hk
+        exact bindCall_default hps hb (h2 ▸ hp) hk
+
+/-- non-vacuity and sensitivity: `Clip(upper=100)`; the builder with the explicit `upper=None` makes an actor holding
+`None`, the builder without arguments one holding `100`; both survive pickling unchanged, so the two stay different
+behind a process boundary -/
+def exClip : ActorClass := ⟨1, [⟨0, some (.int 100), false⟩]⟩
+
+example : (Spec.new exClip [] [(0, .none)]).bind Spec.call = some ⟨1, [(0, .none)]⟩ ∧
+    (Spec.new exClip [] []).bind Spec.call = some ⟨1, [(0, .int 100)]⟩ ∧
+    (Spec.new exClip [.none] []).bind Spec.call = some ⟨1, [(0, .none)]⟩ ∧
+    ((Spec.new exClip [] [(0, .none)]).bind Spec.roundtrip).bind Spec.call = some ⟨1, [(0, .none)]⟩ ∧
+    Spec.new exClip [.none] [(0, .none)] = none ∧ Spec.new exClip [] [(1, .none)] = none ∧
+    Spec.new exClip [.none, .none] [] = none := by decide
+
+/-- **The `processes` scheduler executes what the in-process schedulers execute**: shipping every instruction of a
+table of accepted builders through its pickle changes nothing, so the run delivers the very same values. -/
+theorem C02_processes (code : Instance → Actor) (A : Option Assets) (T : PTable) (h : T.valid = true) :
+    T.ship = some T ∧ runDaskProcesses code A T = runDaskLocal code A T :=
+  ⟨PTable.ship_valid h, runDaskProcesses_eq code A h⟩
+
+/-- **Every back-end evaluates the table with the actors its builders configure.** For a table of accepted builders
+whose actors can be instantiated (`T.lower code = some t`, `code` any naming of the configured instances) and that is
+valid: the Dask runner under the in-process schedulers and under `processes` delivers for every sink the value of the
+direct dependency-ordered evaluation of `t` - in which every functor is applied by the instance its builder makes -
+and, if the table is an apply-mode table, so does every call of the single-function runner's expression (which
+instantiates the builders once, at construction). -/
+theorem C02_builders (code : Instance → Actor) (A : Option Assets) (T : PTable) (t : Table) (r : Key → Nat)
+    (hv : T.valid = true) (hl : T.lower code = some t) (h : t.ranked r = true) (hne : t ≠ []) :
+    (∃ m, runDaskLocal code A T = .ok m ∧ runDaskProcesses code A T = .ok m ∧
+      ∀ k ∈ t.sinks, m.get k = some (Table.value A t t.fuel k) ∧ m.get k = (run A t).get k) ∧
+    (t.applyMode A = true → ∃ U hd sink, expression A t = .ok U ∧ t.sinks = [sink] ∧ t.heads = [hd] ∧
+      ∀ x, U.run x = valueIn A t hd x t.fuel sink) := by
+  constructor
+  · obtain ⟨job, hjob, _, hvals, _⟩ := C02_dask A t r h hne
+    refine ⟨evalDask A job, ?_, ?_, fun k hk => ⟨(hvals k hk).2, (hvals k hk).1⟩⟩
+    · simp [runDaskLocal, hl, runDask, hjob]
+    · rw [runDaskProcesses_eq code A hv]
+      simp [runDaskLocal, hl, runDask, hjob]
+  · intro ham
+    exact C02_pyfunc A t r h ham
+
+/-- **The assignment is observable**: two builders that configure different instances (another class, or one
+parameter with another value - `None` instead of the default, say) yield different results on the same arguments,
+under any injective naming of instances: no back-end may confuse them. -/
+theorem C02_builder_observable (code : Instance → Actor) (hinj : ∀ i j, code i = code j → i = j)
+    (b1 b2 : Spec) (i1 i2 : Instance) (h1 : b1.call = some i1) (h2 : b2.call = some i2) (hne : i1 ≠ i2)
+    (A : Option Assets) (ps : List Preset) (args : List Val) (hp : (reducePresets ps .none args).isSome = true)
+    (f1 f2 : Instr) (hf1 : (PInstr.functor b1 .apply ps).lower code = some f1)
+    (hf2 : (PInstr.functor b2 .apply ps).lower code = some f2) : exec A f1 args ≠ exec A f2 args := by
+  simp only [PInstr.lower, h1, h2, Option.some.injEq] at hf1 hf2
+  subst hf1 hf2
+  simp only [exec, execFunctor]
+  cases hr : reducePresets ps .none args with
+  | none => simp [hr] at hp
+  | some p =>
+    simp only
+    intro heq
+    injection heq with ha
+    exact hne (hinj _ _ ha)
+
+/-- non-vacuity of `C02_builders`: a train-mode table whose trained group is built by `Clip.builder(upper=None)` -/
+def exClipTable : PTable :=
+  [⟨.uid 0, .functor ⟨⟨0, []⟩, [], []⟩ .apply [], []⟩,
+   ⟨.uid 2, .functor ⟨exClip, [], [(0, .none)]⟩ .train [], [.uid 0, .uid 0]⟩,
+   ⟨.uid 3, .functor ⟨exClip, [], [(0, .none)]⟩ .apply [.setState], [.uid 2, .uid 0]⟩,
+   ⟨.dumper 2, .dumper, [.uid 2]⟩,
+   ⟨.committer, .committer, [.dumper 2]⟩]
+
+def exClipRank : Key → Nat
+  | .uid 0 => 0 | .uid 2 => 1 | .uid 3 => 2 | .dumper _ => 2 | .committer => 3 | _ => 0
+
+example : exClipTable.valid = true ∧
+    (exClipTable.lower (internCode [⟨1, [(0, .none)]⟩])).isSome = true ∧
+    ((exClipTable.lower (internCode [⟨1, [(0, .none)]⟩])).map fun t => t.ranked exClipRank) = some true := by decide
+
+/-! ### dask's pure tasks -/
+
+/-- **Merging equally named pure tasks is invisible in the data.** `dask.delayed(leaf, pure=True)` names a task by the
+content of the instruction and the names of its argument tasks (`Table.token`); instructions with the same name become
+one task whose single result all their consumers receive. The value of an instruction is a function of that name, so
+every consumer receives exactly the value of the instruction it asked for. -/
+theorem C02_dask_pure_tasks (A : Option Assets) (t : Table) (k₁ k₂ : Key)
+    (h : t.token t.fuel k₁ = t.token t.fuel k₂) : Table.value A t t.fuel k₁ = Table.value A t t.fuel k₂ :=
+  value_of_token A t t.fuel k₁ k₂ h
+
+/-- the same where it matters for configured actors: the content of a functor is its builder - class, positional and
+keyword arguments - and its action chain; only functors that agree in all of that (and hence make the same actor) over
+equally named arguments are merged -/
+theorem C02_dask_pure_tasks_builders (code : Instance → Actor) (A : Option Assets) (T : PTable) (t : Table)
+    (hl : T.lower code = some t) (k₁ k₂ : Key) (h : T.token t.fuel k₁ = T.token t.fuel k₂) :
+    Table.value A t t.fuel k₁ = Table.value A t t.fuel k₂ :=
+  value_of_token A t t.fuel k₁ k₂ (ptoken_lower hl t.fuel k₁ k₂ h)
+
+/-- non-vacuity: the two equal workers of `[h; a(h); a(h); s(a, a)]` carry the same name, the head does not -/
+example : let t : Table := [⟨.uid 0, .functor 0 .apply [], []⟩, ⟨.uid 1, .functor 1 .apply [], [.uid 0]⟩,
+                            ⟨.uid 2, .functor 1 .apply [], [.uid 0]⟩, ⟨.uid 3, .functor 3 .apply [], [.uid 1, .uid 2]⟩]
+    t.token t.fuel (.uid 1) = t.token t.fuel (.uid 2) := by rfl
 
 /-! ### the code before the repair (for the record) -/
 
